@@ -35,7 +35,7 @@ def cases(rng, tier):
             if n < 2:
                 x = [Fraction(0), Fraction(3)]
                 n = 2
-        yield {"argrep": S.pick_argrep(rng, 0.7), "container": rng.choice(["array", "array", "array", "labels"]),
+        yield {"argrep": S.pick_argrep(rng, 0.7), "container": rng.choice(["array", "array", "array", "labels", "interval", "interval-corrected"]),
                "x": [str(v) for v in x], "y": [str(v) for v in rng.values(n)], "r": rng.randint(1, 12),
                "int": integer, "via": rng.choice(["process", "weaver"]), "a": rng.randint(1, 4), "b": rng.randint(1, 3)}
 
@@ -123,6 +123,12 @@ def run_impl(c):
     ya = S.arr(floats(y))
     if c.get("container") == "labels" and c["via"] == "process":
         xa, ya = S.LabelSeries(xa), S.LabelSeries(ya)      # columns of a sorted data frame
+    if str(c.get("container", "")).startswith("interval") and c["via"] == "process":
+        # the library's own array-like, fresh or looked at and then corrected in place
+        h = "fresh" if c["container"] == "interval" else "corrected"
+        k = 1 + len(x) % 4
+        yint = all(v.denominator == 1 for v in y)
+        xa, ya = S.interval_container(x, k, h, integral=c["int"]), S.interval_container(y, k, h, integral=yint)
     R = S.count(c["r"], c.get("argrep", "plain"), narrow=False)      # the count as int, numpy.int64 / int32, a 0-d array (the pinned code overflows with int8 counts)
     try:
         if c["via"] == "process":
